@@ -84,11 +84,26 @@ def jobs(tier, seed):
         for mod in (MODS if tier == 'thorough' else ['ModGMSK', 'Mod8PSK', 'ModAQPSK', 'Mod32QAM']):
             for nope in (False, True):
                 out.append(('rx.gen.%s.%s.len=%s' % (mod, 'nope' if nope else 'burst', L), 'h_rx_gen', dict(mod=mod, nope=nope, blen=L)))
+    # the same object was encoded and sent once before, with valid content (validation must not be remembered)
+    out.append(('tx.gen.len=148.reused-object', 'h_tx_gen', dict(blen=148, reused=True)))
+    out.append(('rx.gen.ModGMSK.burst.len=148.reused-object', 'h_rx_gen', dict(mod='ModGMSK', nope=False, blen=148, reused=True)))
+    out.append(('rx.gen.ModGMSK.nope.len=None.reused-object', 'h_rx_gen', dict(mod='ModGMSK', nope=True, blen=None, reused=True)))
     return out
 
 
-def _mk_tx(ctx, T, none, burst):
+NEAR = dict(fn=(0, HYPER + 1), tn=(0, 9), pwr=(0, 256), rssi=(-121, -46), toa256=(-32768, 32767), ci=(-1281, 1281), tsc=(0, 8), tsc_set=(0, 4))
+
+
+def _mk_tx(ctx, T, none, burst, reused=False):
     m = T.data_msg.TxMsg()
+    if reused:
+        m.ver = 1; m.fn = 5; m.tn = 3; m.pwr = 10; m.burst = bytearray([1, 0] * 74)
+        m.gen_msg()
+        # values just around the valid ranges (non-negative where the encoder would OR them into an octet)
+        m.ver = ctx.int('ver', 0, 2)
+        for f in FIELDS_TX: setattr(m, f, ctx.int(f, *NEAR[f]))
+        m.burst = burst
+        return m
     m.ver = ctx.int('ver', -2, 17)
     for f in FIELDS_TX:
         setattr(m, f, None if none == f else ctx.int(f, -BIG, BIG))
@@ -96,9 +111,18 @@ def _mk_tx(ctx, T, none, burst):
     return m
 
 
-def _mk_rx(ctx, T, mod, nope, none, burst):
+def _mk_rx(ctx, T, mod, nope, none, burst, reused=False):
     dm = T.data_msg
     m = dm.RxMsg()
+    if reused:
+        import array
+        m.ver = 1; m.fn = 5; m.tn = 3; m.rssi = -60; m.toa256 = 0; m.ci = 0; m.tsc = 1; m.tsc_set = 0; m.nope_ind = False
+        m.mod_type = dm.Modulation.ModGMSK; m.burst = array.array('b', [5, -5] * 74)
+        m.gen_msg()
+        m.ver = ctx.int('ver', 0, 2)
+        for f in FIELDS_RX: setattr(m, f, ctx.int(f, *NEAR[f]))
+        m.nope_ind = nope; m.mod_type = getattr(dm.Modulation, mod); m.burst = burst
+        return m
     m.ver = ctx.int('ver', -2, 17)
     for f in FIELDS_RX:
         setattr(m, f, None if none == f else ctx.int(f, -BIG, BIG))
@@ -155,17 +179,17 @@ def _gen_and_send(ctx, T, m, table):
     ctx.check('send_msg:datagram-iff-valid', table if sent == 1 else (bnot(table) if sent == 0 else False), sent=sent)
 
 
-def h_tx_gen(ctx, blen):
+def h_tx_gen(ctx, blen, reused=False):
     T = env.load(ctx, 'data_msg', 'udp_link', 'data_if')
     with env.symbolic(ctx):
         burst = None if blen is None else mk_bytearray(ctx, ctx.ints('ubit', blen, 0, 1))
-        m = _mk_tx(ctx, T, '-', burst)
+        m = _mk_tx(ctx, T, '-', burst, reused)
         _gen_and_send(ctx, T, m, table_tx(m))
 
 
-def h_rx_gen(ctx, mod, nope, blen):
+def h_rx_gen(ctx, mod, nope, blen, reused=False):
     T = env.load(ctx, 'data_msg', 'udp_link', 'data_if')
     with env.symbolic(ctx):
         burst = None if blen is None else mk_array(ctx, 'b', ctx.ints('sbit', blen, -127, 127))
-        m = _mk_rx(ctx, T, mod, nope, '-', burst)
+        m = _mk_rx(ctx, T, mod, nope, '-', burst, reused)
         _gen_and_send(ctx, T, m, table_rx(m, T.data_msg.Modulation))
